@@ -35,6 +35,10 @@ CALLK = {"connect": 0, "reconnect": 1, "disconnect": 2, "publish": 3, "subscribe
 CS = {"MQTT_CS_NEW": 0, "MQTT_CS_CONNECT_ASYNC": 1, "MQTT_CS_CONNECTING": 2, "MQTT_CS_CONNECTED": 3,
       "MQTT_CS_CONNECTION_LOST": 4, "MQTT_CS_DISCONNECTING": 5, "MQTT_CS_DISCONNECTED": 6}
 KEEPALIVE = 60
+# before /repo commit 5844bc2 on_socket_open/on_socket_close ran under _in_callback_mutex: reconnect() from a
+# callback then self-deadlocked; the harness must not execute such a call (relevant for replays on old trees only)
+import inspect
+OLD_SOCKCB_LOCKING = "with self._in_callback_mutex" in inspect.getsource(mqtt.Client._call_socket_close)
 
 
 def O(call, sched=(), scr=NOSCR):
@@ -77,7 +81,7 @@ def enc_cfg(cfg):
 
 
 def op_wf(cfg, o):
-    return not (cfg["sockcb"] and any(a in (3, 4) for q in o[2] for s in q for a in s))
+    return True
 
 
 def run_model_batch(cases):
@@ -252,7 +256,7 @@ class Run:
             self.ev.append([10, 2, 0, 0, 0, 0])
             c.disconnect()
         else:
-            if self.cfg["sockcb"] and c._in_callback_mutex.locked():
+            if self.cfg["sockcb"] and c._in_callback_mutex.locked() and OLD_SOCKCB_LOCKING:
                 self.ev.append([13, 0, 0, 0, 0, 0])      # would self-deadlock (C18): never executed
                 return
             self.ev.append([10, 1, 0, 0, 0, 0])
